@@ -39,8 +39,16 @@ Section Valid.
   Proof. intros E. unfold total_frames. now rewrite E, sumlen_app. Qed.
 
   (* ---- read_frame *)
-  Lemma read_frame_none d : d_rest d = [] -> read_frame F d = (d, Ok None).
-  Proof. intros E. unfold read_frame. now rewrite E. Qed.
+  Lemma read_frame_none d pre : f_slots F = pre ++ [] -> d_rest d = [] -> d_cur d = sumlen pre ->
+    read_frame F d = (d, Ok None).
+  Proof.
+    intros E Er Ec. unfold read_frame. pose proof (v_total F V) as Ht.
+    destruct (f_total F) as [t|].
+    - subst t. rewrite (split_total _ _ E), Ec. cbn [sumlen]. unfold checked_sub.
+      replace (sumlen pre <=? sumlen pre + 0) with true by (symmetry; apply N.leb_le; lia).
+      replace (sumlen pre + 0 - sumlen pre) with 0 by lia. reflexivity.
+    - unfold next_slot. now rewrite Er.
+  Qed.
 
   Lemma read_frame_some d pre s r :
     f_slots F = pre ++ s :: r -> d_rest d = s :: r -> d_cur d = sumlen pre ->
@@ -49,8 +57,28 @@ Section Valid.
   Proof.
     intros E Er Ec. destruct (split_good _ _ E) as (_ & Hg). inversion Hg as [|? ? (f & -> & Hf) _]; subst.
     exists f. split; [reflexivity|]. split; [exact Hf|].
-    unfold read_frame. rewrite Er, Ec. rewrite u64_add_ok; [reflexivity|].
-    pose proof (split_total _ _ E) as Ht. rewrite sumlen_cons in Ht. pose proof total_lt_u64. lia.
+    pose proof (split_total _ _ E) as Ht. rewrite sumlen_cons in Ht. pose proof total_lt_u64 as Hu.
+    assert (Hnext : forall rem, (match rem with Some x => x = pcm_frames f + sumlen r /\ f_total F <> None | None => f_total F = None end) ->
+              next_slot F d rem = ({| d_rest := r; d_cur := sumlen pre + pcm_frames f; d_buf := f |}, Ok (Some f))).
+    { intros rem Hrem. unfold next_slot. rewrite Er, Ec.
+      assert (Hshort : match rem with
+                       | Some x => negb ((pcm_frames f =? x) || (14 <? pcm_frames f))
+                       | None => false end = false).
+      { destruct rem as [x|]; [|reflexivity]. destruct Hrem as (-> & Hk). destruct r as [|s' r'].
+        - cbn [sumlen]. replace (pcm_frames f =? pcm_frames f + 0) with true by (symmetry; apply N.eqb_eq; lia).
+          reflexivity.
+        - pose proof (v_blocks F V Hk pre (SFrame f) (s' :: r') E ltac:(discriminate)) as Hb.
+          cbn [slot_frame] in Hb. apply N.ltb_lt in Hb. rewrite Hb, orb_true_r. reflexivity. }
+      rewrite Hshort. rewrite u64_add_ok by lia. reflexivity. }
+    unfold read_frame. pose proof (v_total F V) as Hv. destruct (f_total F) as [t|] eqn:Et.
+    - subst t. rewrite Ht, Ec. unfold checked_sub.
+      replace (sumlen pre <=? sumlen pre + (pcm_frames f + sumlen r)) with true by (symmetry; apply N.leb_le; lia).
+      replace (sumlen pre + (pcm_frames f + sumlen r) - sumlen pre) with (pcm_frames f + sumlen r) by lia.
+      destruct Hf as (Hf1 & Hp & Hf3).
+      assert (Hk : Some (total_frames F) <> None) by discriminate.
+      specialize (Hnext (Some (pcm_frames f + sumlen r)) (conj eq_refl Hk)).
+      destruct (pcm_frames f + sumlen r) as [|p] eqn:Ep; [lia | exact Hnext].
+    - apply (Hnext None). reflexivity.
   Qed.
 
   (* ---- Decoder::seek *)
